@@ -162,7 +162,7 @@ func onceWrapper(f *ssa.Function) (int, bool) {
 		ok := true
 		core.EachInstr(f, func(i ssa.Instruction) {
 			if ret, isRet := i.(*ssa.Return); isRet {
-				if len(ret.Results) != 1 || ret.Results[0] != ssa.Value(c) {
+				if len(ret.Results) != 1 || core.ReturnValues(ret)[0] != ssa.Value(c) {
 					ok = false
 				}
 			}
@@ -435,12 +435,22 @@ func c12(p *core.Prog, r *core.Report) {
 		// onDone closures release exactly the parsed frame
 		if pf := mustFunc(p, r, "", "", "parseInboundFragment"); pf != nil {
 			n := 0
-			for _, a := range pf.AnonFuncs {
-				for _, c := range core.CallsIn(a, "FramePool.Release") {
-					n++
-					_ = c
+			// the function stored in fragment.onDone: a closure of
+			// parseInboundFragment, or a method value (bound-method wrapper)
+			core.EachInstr(pf, func(i ssa.Instruction) {
+				st, ok := i.(*ssa.Store)
+				if !ok {
+					return
 				}
-			}
+				if fl := core.AddrField(st.Addr); fl == nil || fl.Name() != "onDone" {
+					return
+				}
+				if mc, isMC := st.Val.(*ssa.MakeClosure); isMC {
+					for _, g := range unwrapBound(mc.Fn.(*ssa.Function)) {
+						n += len(core.CallsIn(g, "FramePool.Release"))
+					}
+				}
+			})
 			r.Check(n == 1, "C12-R4", fname(pf), "fragment.onDone releases the parsed frame once", p.Pos(pf.Pos()), "one release in the onDone closure", fmt.Sprintf("%d releases in onDone closures", n))
 		}
 	}
